@@ -262,8 +262,11 @@ def _r4(ctx):
                     "%s" % (name, t[2], t[1], list(t[0]), "read" if name == "is_read" else "written"), f.qname,
                     "%s extra %s %s %s" % (name, "+".join(t[0]), t[1], t[2]))
         # result is the disjunction of all hits
-        acc = pm.find("M_r = M_c or M_r", f.node) + pm.find("M_r = M_r or M_c", f.node)
         rets = [r for r in ast.walk(f.node) if isinstance(r, ast.Return) and isinstance(r.value, ast.Name)]
+        acc = pm.find("M_r = M_c or M_r", f.node) + pm.find("M_r = M_r or M_c", f.node)
+        # (intermediate accumulators - per operand, from a helper expanded in place - are followed below; the result is the
+        # one that is returned)
+        acc = [(n_, b_) for n_, b_ in acc if any(U(r.value) == U(b_["M_r"]) for r in rets)] or acc
         ok = bool(acc) and all(U(b["M_r"]) == U(acc[0][1]["M_r"]) for _, b in acc) and any(
             U(r.value) == U(acc[0][1]["M_r"]) for r in rets)
         inits = [a for a in C.assigns_to(f.node, U(acc[0][1]["M_r"])) if U(a.value) == "False"] if acc else []
@@ -294,7 +297,22 @@ def _r4(ctx):
                 st = c
                 while st is not None and not isinstance(st, ast.stmt):
                     st = C.parent(st)
-                flows = isinstance(st, ast.Assign) and U(st.targets[0]) == res and res in [U(x) for x in ast.walk(st.value) if isinstance(x, ast.Name)]
+                def flows_to_result(tname, seen_=()):
+                    """the local `tname` is or-ed (or copied) into the result, directly or through other locals"""
+                    if tname == res:
+                        return True
+                    for a_ in ast.walk(f.node):
+                        if isinstance(a_, ast.Assign) and isinstance(a_.targets[0], ast.Name) and a_.targets[0].id not in seen_:
+                            v_ = a_.value
+                            ops_ = v_.values if isinstance(v_, ast.BoolOp) and isinstance(v_.op, ast.Or) else [v_]
+                            if any(isinstance(o_, ast.Name) and o_.id == tname for o_ in ops_) and a_.targets[0].id != tname:
+                                if flows_to_result(a_.targets[0].id, tuple(seen_) + (tname,)):
+                                    return True
+                    return False
+                own = isinstance(st, ast.Assign) and isinstance(st.targets[0], ast.Name) and (
+                    st.value is c or (isinstance(st.value, ast.BoolOp) and isinstance(st.value.op, ast.Or) and any(v_ is c for v_ in st.value.values)))
+                flows = (isinstance(st, ast.Assign) and U(st.targets[0]) == res and res in [U(x) for x in ast.walk(st.value) if isinstance(x, ast.Name)]) \
+                    or (own and flows_to_result(st.targets[0].id))
                 if foreign:
                     ctx.bad("R4", "%s: %s of %s consulted independently" % (name, part, var), f.where(c),
                             "the %s of `%s` is tested for a dependence only under `%s%s`, a condition on ANOTHER part of the operand (%s): "
